@@ -261,6 +261,12 @@ func (s *BuiltinType) FilterJson(data json.RawMessage, _ *TypeLookup) (json.RawM
 	case KindInt:
 		var tmp int64
 		if err := json.Unmarshal(data, &tmp); err != nil {
+			if !bytes.ContainsAny(data, ".eE") {
+				// Not written as a float, so this is not an integral
+				// float.  An integer which is out of range would be
+				// rounded by parsing it as a float, rather than rejected.
+				return data, true, err
+			}
 			var tmp float64
 			if err := json.Unmarshal(data, &tmp); err != nil {
 				return data, true, err
